@@ -29,6 +29,7 @@
 
 #include <cstdint>
 #include <string>
+#include <unordered_set>
 #include <vector>
 
 namespace psy {
@@ -70,6 +71,7 @@ private:
     template <class TypeRefT> Action visitMaybeAmbiguousTypeReference(TypeRefT* const&);
 
     std::vector<const SyntaxNode*> inconclusiveDisambigs_;
+    std::unordered_set<const SyntaxNode*> binExprsOfAmbigs_;
 
 protected:
     //--------------//
